@@ -214,13 +214,14 @@ def ref_gcp(x, g, lb, ub, B):
     return dict(xcp=xcp, z=z, tstar=tstar, t=t, pinned=pinned, near=near, crossed=crossed, cancellation=amp, knife=knife)
 
 
-def ref_subspace(x, xc, g, lb, ub, B):
+def ref_subspace(x, xc, g, lb, ub, B, r_full=None):
     """Direct primal method of section 5.1: reduced Newton step from xc on the
-    variables strictly inside the box at xc, truncated to the box."""
+    variables strictly inside the box at xc, truncated to the box.
+    r_full: the model gradient at xc when the caller has it from another source (the auxiliary vector handed over with xc)."""
     free = np.nonzero((xc != lb) & (xc != ub))[0]
     if free.size == 0:
         return dict(xbar=xc.copy(), alpha=1.0, free=free, cond=1.0, dhat=np.zeros(0))
-    r = (g + B @ (xc - x))[free]
+    r = (g + B @ (xc - x))[free] if r_full is None else np.asarray(r_full, dtype=float)[free]
     Bff = B[np.ix_(free, free)]
     dhat = -np.linalg.solve(Bff, r)
     alpha = 1.0
